@@ -1280,9 +1280,24 @@ func fltCheck(out *Out, hr *HistRun, store *ledgerstore.Store, c fltCase, seen m
 			}
 			fltSortKeys(c.Res, k3)
 			tag := "[wrong-selection]"
+			var hasAddrIn, hasPartial bool
+			c.F.walk(func(x *fltNode, _ int) {
+				if x.Key == "address" || x.Key == "account" {
+					hasAddrIn = hasAddrIn || x.Op == "in"
+					hasPartial = hasPartial || (x.Val.K == 's' && refIsPartial(x.Val.S))
+				}
+			}, 0)
+			subset := true // every listed key is an expected one (rows are only LOST)
+			for _, k := range r.Keys {
+				subset = subset && inList(k, refKeys)
+			}
 			switch {
 			case fmt.Sprint(k3) == fmt.Sprint(r.Keys):
 				tag = "[not-over-absent-value]"
+			case c.Res == "vol" && hasAddrIn && hasPartial && subset:
+				tag = "[pushdown-drops-in-branch]"
+			case c.Res == "agg" && hasAddrIn && hasPartial:
+				tag = "[pushdown-drops-in-branch]"
 			case hasMetaIn:
 				tag = "[in-on-metadata-selects-nothing]"
 			case hasEmptyOr:
